@@ -28,6 +28,8 @@ TypeEv ==
     /\ E.vsign.short.stored \in {0, -1} /\ E.vsign.long.stored \in {0, -1}     \* (-1: the sign crashed on it - C12's finding, not C19's)
     \* and it is the block sent last that counts (a doctored block with the same family / id before it changes nothing)
     /\ E.vsign.after_doctored = E.vsign.full /\ E.vsign.after_doctored_retry = E.vsign.full
+    \* chunks that look like blocks at other offsets of the configuration transfer are not the block
+    /\ E.vsign.after_stray = E.vsign.full
     /\ LET pr == <<E.block[1], E.block[2]>> IN
         /\ (pr \in DOMAIN ids => ids[pr] = E.name)             \* no two types share (family, id)
         /\ ids' = [q \in DOMAIN ids \cup {pr} |-> IF q = pr THEN E.name ELSE ids[q]]
@@ -41,6 +43,13 @@ DecodeEv ==
        ELSE E.r.res = "UnknownConfig"
     /\ UNCHANGED ids
 
-Next == TypeEv \/ DecodeEv
+\* a sweep over the values of the last four bytes behind a fixed prefix (tried: in units of 1024 blocks): none decodes
+\* differently from the block with a zero tail (each deviant precedes this event as a decode event of its own)
+SweepEv ==
+    /\ IsEvent("sweep")
+    /\ E.deviants = 0 /\ E.tried >= 1024
+    /\ UNCHANGED ids
+
+Next == TypeEv \/ DecodeEv \/ SweepEv
 Spec == Init /\ [][Next]_vars
 =============================================================================
